@@ -128,6 +128,11 @@ func (ex *Executor) callFunc(st *State, fr *frame, fn *ssa.Function, args []Valu
 		base := st.Clone()
 		rs := ex.exploreInline(fn, st, args, bind, fr)
 		fr.callee = nil
+		if ex.GhostHook != nil {
+			for _, r := range rs {
+				ex.GhostHook(ex, fn, args, r.St, len(base.Trace))
+			}
+		}
 		return ex.mergePure(base, rs)
 	}
 	if rs := ex.genericStatic(st, cc, fn); rs != nil {
